@@ -506,6 +506,7 @@ extern "C" void verif_point(int id, const void* a, const void* b)
         break;
     case VERIF_PT_IO_LOCK_RELEASED:
         W->io_owner = -1;
+        yieldpoint(t, id);  // a mutex hand-over is a scheduling point: whoever waits for the lock may run now
         break;
     default:
         break;
